@@ -197,7 +197,7 @@ func (w *World) Token(form url.Values, a Auth, mut ...TokenMut) (out *Out) {
 	defer recoverCrash(out, w)
 	r := postReq("/oauth2/token", form, a)
 	rec := httptest.NewRecorder()
-	sess := NewSess("")
+	sess := w.Session("")
 	ar, err := w.P.NewAccessRequest(ctx, r, sess)
 	if err != nil {
 		out.Err, out.ErrName = err, ErrName(err)
@@ -320,9 +320,15 @@ func (w *World) AuthorizeRaw(rawQuery string, c Consent) (out *AuthzOut) {
 	if sub == "" && !c.EmptySubject {
 		sub = "user-1"
 	}
-	sess := w.NewSess(sub)
-	if c.SessMut != nil {
-		c.SessMut(sess)
+	var sess fosite.Session
+	if w.Opts.SessFactory != nil {
+		sess = w.Opts.SessFactory(sub)
+	} else {
+		hs := w.NewSess(sub)
+		if c.SessMut != nil {
+			c.SessMut(hs)
+		}
+		sess = hs
 	}
 	resp, err := w.P.NewAuthorizeResponse(ctx, ar, sess)
 	if err != nil {
@@ -419,7 +425,7 @@ type Intro struct {
 // IntrospectAPI calls the provider's IntrospectToken directly.
 func (w *World) IntrospectAPI(token string, hint fosite.TokenUse, scopes ...string) Intro {
 	ctx, _ := w.ctx()
-	use, ar, err := w.P.IntrospectToken(ctx, token, hint, NewSess(""), scopes...)
+	use, ar, err := w.P.IntrospectToken(ctx, token, hint, w.Session(""), scopes...)
 	return Intro{Active: err == nil, Use: use, AR: ar, Err: err}
 }
 
@@ -433,7 +439,7 @@ func (w *World) IntrospectHTTP(form url.Values, a Auth, bearer string) (out *Out
 		r.Header.Set("Authorization", "Bearer "+bearer)
 	}
 	rec := httptest.NewRecorder()
-	ir, err := w.P.NewIntrospectionRequest(ctx, r, NewSess(""))
+	ir, err := w.P.NewIntrospectionRequest(ctx, r, w.Session(""))
 	if err != nil {
 		out.Err, out.ErrName = err, ErrName(err)
 		w.P.WriteIntrospectionError(ctx, rec, err)
@@ -476,7 +482,7 @@ func (w *World) PAR(form url.Values, a Auth) (out *Out) {
 		finish(rec, out)
 		return
 	}
-	resp, err := w.P.NewPushedAuthorizeResponse(ctx, ar, NewSess(""))
+	resp, err := w.P.NewPushedAuthorizeResponse(ctx, ar, w.Session(""))
 	if err != nil {
 		out.Err, out.ErrName = err, ErrName(err)
 		w.P.WritePushedAuthorizeError(ctx, rec, ar, err)
@@ -503,7 +509,7 @@ func (w *World) Device(form url.Values, a Auth) (out *Out) {
 		finish(rec, out)
 		return
 	}
-	resp, err := w.P.NewDeviceResponse(ctx, dr, NewSess(""))
+	resp, err := w.P.NewDeviceResponse(ctx, dr, w.Session(""))
 	if err != nil {
 		out.Err, out.ErrName = err, ErrName(err)
 		w.P.WriteAccessError(ctx, rec, dr, err)
@@ -549,16 +555,22 @@ func (w *World) DeviceDecide(userCode string, accept bool, subject string, scope
 			target.GrantAudience(a)
 		}
 		old := target.GetSession()
-		ns := w.NewSess(subject)
+		var ns fosite.Session
+		if w.Opts.SessFactory != nil {
+			ns = w.Opts.SessFactory(subject)
+		} else {
+			hs := w.NewSess(subject)
+			for _, m := range sessMut {
+				m(hs)
+			}
+			ns = hs
+		}
 		if old != nil {
 			for _, tt := range []fosite.TokenType{fosite.UserCode, fosite.DeviceCode} {
 				if e := old.GetExpiresAt(tt); !e.IsZero() {
 					ns.SetExpiresAt(tt, e)
 				}
 			}
-		}
-		for _, m := range sessMut {
-			m(ns)
 		}
 		target.SetSession(ns)
 	} else {
